@@ -122,6 +122,10 @@ def load_ref(ref):
                 mol.RemoveAllConformers()
             c = Chem.Conformer(m.GetConformer(0))
             mol.AddConformer(c, assignId=True)
+        if ref.get("addhs"):
+            # the same conformers with explicit hydrogens (placed by RDKit): molecules of 60-90 atoms, so that after a
+            # renumbering heavy atoms carry indices beyond 63
+            mol = Chem.AddHs(mol, addCoords=True)
     else:
         mol = Chem.MolFromSmiles(ref["smiles"])
         if ref.get("hs", True):
@@ -164,6 +168,10 @@ def ideal_refs():
 def all_refs():
     refs = [{"sdf": os.path.relpath(p, vlib.REPO)} for p in sdf_paths()]
     refs += [{"smiles": s, "nconf": 2, "seed": 7, "hs": True} for s in SMILES]
+    # large molecules: shipped conformers with explicit hydrogens added (60-90 atoms), a chain of more than 64 heavy atoms
+    big = [p for p in sdf_paths() if "rand_sdf_files" not in p] + sdf_paths()[-3:]
+    refs += [{"sdf": os.path.relpath(p, vlib.REPO), "addhs": True} for p in big[:6]]
+    refs.append({"smiles": "OC(=O)" + "CCO" * 22 + "C", "nconf": 1, "seed": 5, "hs": False})
     # symmetric centres whose mean neighbour vector straddles the 0.1 A guard of pick_y
     for smi in ("FB(F)F", "O=S(=O)=O", "CB(C)C", "FP(F)F", "ClC(Cl)(Cl)Cl", "CN(C)C"):
         for mean in (0.03, 0.085, 0.115, 0.16, 0.3):
